@@ -46,6 +46,7 @@ package server
 //@ emits RolloutSplit(s, percentage)
 //@ assigns s.rolloutController
 //@ ensures[C17] no_timed_wait: now == old(now)
+//@ ensures[C06,C18] lock_released_on_every_path: !held(s.serviceLock)
 //@ ensures[C10,C06] rejected: old(s.rollout) == nil ==> err == ErrorRolloutTargetNotSet && s.rolloutController == old(s.rolloutController)
 //@ ensures[C10] accepted: old(s.rollout) != nil ==> err == nil && fresh(s.rolloutController) && s.rolloutController.Percentage == percentage && s.rolloutController.PercentageSplitPoint == fpSplit(percentage) && s.rolloutController.Allowlist == allowlist
 
@@ -145,7 +146,7 @@ package server
 //@ emits SetPaused(p, failAfter)
 //@ assigns p.State, p.StopMessage, p.FailAfter, p.pauseChannel
 //@ ensures[C07] paused: err == nil && p.State == PauseStatePaused && p.StopMessage == "" && p.FailAfter == failAfter
-//@ ensures[C07] new_channel_on_change: old(p.State) != PauseStatePaused ==> fresh(p.pauseChannel) && !closed(p.pauseChannel)
+//@ ensures[C07,C03] new_channel_on_change: old(p.State) != PauseStatePaused ==> fresh(p.pauseChannel) && !closed(p.pauseChannel)
 //@ ensures[C07] keeps_channel: old(p.State) == PauseStatePaused ==> p.pauseChannel == old(p.pauseChannel)
 //@ ensures[C07,C18] lock_free: !held(p.lock)
 
@@ -279,7 +280,8 @@ package server
 //@ ensures[C09] notifies_on_change: t.state != old(t.state) && !isnil(t.stateConsumer) ==> emitted(StateChanged(t.stateConsumer, t))
 //@ ensures[C01,C09] closes_once: count(Close(_)) <= 1 && (emitted(Close(_)) ==> old(t.state) == TargetStateAdding && success)
 //@ ensures[C02] rotation_ready_before_signal: !isnil(old(t.stateConsumer)) ==> first(StateChanged(_, _), Close(_))
-//@ ensures[C03,C09] probe_does_not_end_drain: old(t.state) == TargetStateDraining ==> t.state == TargetStateDraining
+//@ ensures[C03,C09] probe_does_not_end_drain: old(t.state) == TargetStateDraining && success ==> t.state == TargetStateDraining
+//@ ensures[C03,C09] failed_probe_does_not_end_drain: old(t.state) == TargetStateDraining && !success ==> t.state == TargetStateDraining
 //@ ensures[C18] lock_free: !held(t.inflightLock)
 
 //@ func (server.TargetState).String
@@ -355,9 +357,9 @@ package server
 //@ assigns t.healthcheck, cancelled(t.healthcheck.cancel), closed(ctxDone(payload(t.healthcheck.ctx)))
 //@ ensures[C01] healthy_means_signalled: result ==> closed(old(t.becameHealthy))
 //@ ensures[C01,C17] timeout_stops_probes: !result ==> probesStopped(t) && now >= old(now) + max(timeout, 0)
-//@ ensures[C17] bounded_by_timeout: now <= old(now) + max(timeout, 0)
+//@ ensures[C17,C01] bounded_by_timeout: now <= old(now) + max(timeout, 0)
 //@ ensures[C17] prompt: result ==> now <= max(old(now), closedAt(old(t.becameHealthy)))
-//@ ensures[C17] timeout_exact: !result ==> now == old(now) + max(timeout, 0)
+//@ ensures[C17,C01] timeout_exact: !result ==> now == old(now) + max(timeout, 0)
 
 //@ func (*server.LoadBalancer).WaitUntilHealthy$1
 //@ may_emit StopProbes, Cancel
@@ -396,6 +398,7 @@ package server
 //@ ensures[C03,C17] bounded_by_drain_timeout: now <= old(now) + max(timeout, 0)
 //@ ensures[C03] every_request_of_the_snapshot_cancelled: old(t.state) != TargetStateDraining ==> forall k `*net/http.Request` :: old(haskey(t.inflight, k)) ==> cancelled(old(t.inflight[k]).cancel)
 //@ ensures[C03,C02] cut_off_only_at_deadline: old(t.state) != TargetStateDraining ==> (forall k `*net/http.Request` :: old(haskey(t.inflight, k)) ==> reqDone(k)) || now >= old(now) + max(timeout, 0)
+//@ ensures[C03,C07,C08] state_restored_when_the_drain_ends: t.state != TargetStateDraining || now == old(now)
 //@ ensures[C03] overlapping_drain_returns_at_once: old(t.state) == TargetStateDraining ==> now == old(now)
 //@ ensures[C18] lock_free: !held(t.inflightLock)
 //@ emits DrainTarget(t, timeout)
@@ -470,7 +473,7 @@ package server
 //@ assigns elemsof(options.LogRequestHeaders), elemsof(options.LogResponseHeaders)
 //@ ensures[C06] malformed_target_rejected: !hostMatch(targetURL) ==> err != nil && result0 == nil
 //@ ensures[C06,C17] built: hostMatch(targetURL) ==> err == nil && fresh(result0) && targetWF(result0) && result0.state == TargetStateAdding && result0.healthcheck == nil && result0.becameHealthy == nil && !everHealthy(result0)
-//@ ensures[C11,C13] keeps_options: err == nil ==> result0.options.HealthCheckConfig == options.HealthCheckConfig && result0.options.ResponseTimeout == options.ResponseTimeout && result0.options.BufferRequests == options.BufferRequests && result0.options.BufferResponses == options.BufferResponses && result0.options.MaxMemoryBufferSize == options.MaxMemoryBufferSize && result0.options.MaxRequestBodySize == options.MaxRequestBodySize && result0.options.MaxResponseBodySize == options.MaxResponseBodySize && result0.options.ForwardHeaders == options.ForwardHeaders
+//@ ensures[C11,C13,C14] keeps_options: err == nil ==> result0.options.HealthCheckConfig == options.HealthCheckConfig && result0.options.ResponseTimeout == options.ResponseTimeout && result0.options.BufferRequests == options.BufferRequests && result0.options.BufferResponses == options.BufferResponses && result0.options.MaxMemoryBufferSize == options.MaxMemoryBufferSize && result0.options.MaxRequestBodySize == options.MaxRequestBodySize && result0.options.MaxResponseBodySize == options.MaxResponseBodySize && result0.options.ForwardHeaders == options.ForwardHeaders
 //@ ensures[C06,C17] no_probing_yet: none(NewHealthCheck) && none(Go)
 
 //@ func (*server.Target).BeginHealthChecks
@@ -534,6 +537,7 @@ package server
 //@ ensures[C12,C11] only_a_rename_replaces_the_state_file: all(FsRename, $1 == r.statePath) && all(CreateTemp, $1 == dirOf(r.statePath))
 //@ ensures[C12,C11] complete_before_it_replaces: first(JsonEncode(_, _), FileClose(_)) && first(FileClose(_), FsRename(_, _, _)) && first(ListServices(_), JsonEncode(_, _)) && count(FsRename(_, _, _)) <= 1
 //@ ensures[C12,C11] replaces_only_with_a_completely_written_file: emitted(FsRename(_, _, _)) ==> emitted(JsonEncoded(_, true)) && none(JsonEncoded(_, false)) && emitted(FileClosed(_, true)) && none(FileClosed(_, false))
+//@ ensures[C12,C11] only_the_temporary_file_is_ever_removed: all(FileRemove, $0 == fileName(ref(f)))
 //@ ensures[C12,C11] success_means_replaced: result == nil ==> count(FsRename(_, _, _)) == 1 && emitted(FsRename(_, _, true)) && count(ListServices(_)) == 1
 //@ ensures[C12,C11] failure_leaves_the_old_file: result != nil ==> none(FsRename(_, _, true))
 //@ ensures[C12] snapshots_are_serialized: first(Lock(r, lockid("server.Router.snapshotLock")), ListServices(_)) && !held(r.snapshotLock) && (result == nil ==> first(FsRename(_, _, _), Unlock(r, lockid("server.Router.snapshotLock"))))
@@ -546,9 +550,9 @@ package server
 //@ assigns Router.services, ServiceMap.requestServiceMap, mapsof(ServiceMap.services), Service.options, `os.File`.content
 //@ may_emit Snapshot, SetService, CheckAvail, RebuildTable, ListServices, CreateTemp, JsonEncode, JsonEncoded, FileClose, FileClosed, FsRename, FileRemove, MarshalService, FsTruncate
 //@ emits Install(r, s) when err == nil
-//@ ensures[C05,C06] conflicting_pair_rejected: err != nil ==> err == ErrorHostInUse && none(SetService) && none(RemoveService) && none(RebuildTable)
+//@ ensures[C05,C06,C09,C01,C02] conflicting_pair_rejected: err != nil ==> err == ErrorHostInUse && none(SetService) && none(RemoveService) && none(RebuildTable)
 //@ ensures[C05,C02] installed_in_one_critical_section: err == nil ==> count(SetService(_, _)) == 1 && emitted(SetService(_, s)) && count(Lock(r, lockid("server.Router.serviceLock"))) == 1 && first(Lock(r, lockid("server.Router.serviceLock")), SetService(_, _)) && first(SetService(_, _), Unlock(r, lockid("server.Router.serviceLock")))
-//@ ensures[C05] checked_and_claimed_under_one_lock: count(CheckAvail(_, _)) == 1 && emitted(CheckAvail(_, s.name)) && first(Lock(r, lockid("server.Router.serviceLock")), CheckAvail(_, _)) && first(CheckAvail(_, _), Unlock(r, lockid("server.Router.serviceLock"))) && (err == nil ==> first(CheckAvail(_, _), SetService(_, _)))
+//@ ensures[C05,C04,C06] checked_and_claimed_under_one_lock: count(CheckAvail(_, _)) == 1 && emitted(CheckAvail(_, s.name)) && first(Lock(r, lockid("server.Router.serviceLock")), CheckAvail(_, _)) && first(CheckAvail(_, _), Unlock(r, lockid("server.Router.serviceLock"))) && (err == nil ==> first(CheckAvail(_, _), SetService(_, _)))
 //@ ensures[C10] rollout_commands_during_a_redeploy_survive_it: err == nil && old(haskey(r.services.services, s.name)) && old(r.services.services[s.name]) != s ==> old(r.services.services[s.name]).rolloutController == s.rolloutController && old(r.services.services[s.name]).rollout == s.rollout
 //@ ensures[C07] held_requests_follow_the_redeploy: err == nil && old(haskey(r.services.services, s.name)) && old(r.services.services[s.name]) != s ==> old(r.services.services[s.name]).active == s.active
 //@ ensures[C12,C11,C05,C06,C10] snapshot_follows_the_change: last_is(Snapshot(r)) && first(Unlock(r, lockid("server.Router.serviceLock")), Snapshot(r))
@@ -568,6 +572,7 @@ package server
 //@ ensures[C03,C17] replaced_targets_disposed_after_draining: err == nil ==> all(Dispose, before(DrainAll($0, _), Dispose($0)))
 //@ ensures[C06,C17] rejected_targets_stop_being_probed: err != nil ==> all(NewLB, emitted(Dispose($0)))
 //@ ensures[C06] malformed_targets_create_nothing: none(NewLB) ==> err != nil && none(UpdateLB) && none(Install) && none(NewHealthCheck) && now == old(now)
+//@ ensures[C11,C12,C05,C10] a_successful_deploy_is_installed_and_saved: err == nil ==> count(Install(_, _)) == 1
 //@ ensures[C17] bounded_by_deploy_plus_drain_timeout: now <= old(now) + max(deployTimeout, 0) + max(drainTimeout, 0)
 //@ ensures[C01,C17] deploy_timeout_used_for_the_wait: all(WaitHealthy, $1 == deployTimeout)
 
@@ -663,13 +668,13 @@ package server
 //@ attr blocks
 //@ assigns Target.state, everHealthy, cancelled, closed
 //@ may_emit DrainAll, Cancel, DrainTarget
-//@ ensures[C03] both_slots_drained: count(DrainAll(_, timeout)) >= 1 && all(DrainAll, $1 == timeout)
+//@ ensures[C03,C07,C08] both_slots_drained: count(DrainAll(_, timeout)) >= 1 && all(DrainAll, $1 == timeout) && (old(s.rollout) != nil ==> count(DrainAll(_, _)) == 2)
 //@ ensures[C03,C17] bounded_by_drain_timeout: now <= old(now) + max(timeout, 0)
 //@ emits DrainService(s, timeout)
 
 //@ func (*server.ServiceMap).bindingsForHost
 //@ assigns nothing
-//@ ensures[C04] exact_then_wildcard_then_default: result == hostBindings(m, host)
+//@ ensures[C04,C05] exact_then_wildcard_then_default: result == hostBindings(m, host)
 
 //@ func (*server.ServiceMap).serviceFor
 //@ attr opaque = ets, hostBindings
@@ -793,7 +798,7 @@ package server
 //@ ensures[C14,C13,C15] overflow_sends_nothing: old(w.buffer.overflowed) ==> err == ErrMaximumSizeExceeded && none(WriteHeader) && none(SendBuffer)
 //@ ensures[C14,C13,C15] hijacked_sends_nothing: !old(w.buffer.overflowed) && old(w.hijacked) ==> err == nil && none(WriteHeader) && none(SendBuffer)
 //@ ensures[C14,C13,C15] status_then_body: !old(w.buffer.overflowed) && !old(w.hijacked) ==> count(SendBuffer(_, _)) == 1 && (old(w.headerWritten) ==> emitted(WriteHeader(old(w.ResponseWriter), old(w.statusCode))) && first(WriteHeader(_, _), SendBuffer(_, _))) && (!old(w.headerWritten) ==> none(WriteHeader))
-//@ emits SendResponse(w)
+//@ emits SendResponse(w, old(w.headerWritten), old(w.statusCode))
 
 //@ func (*server.bufferedResponseWriter).WriteHeader
 //@ requires !isnil(w.ResponseWriter) && w.buffer != nil
@@ -801,7 +806,7 @@ package server
 //@ assigns w.statusCode, w.headerWritten, w.bypass, Buffer.reader, @writerFrame
 //@ may_emit WriteHeader, SendBuffer, Copy, SendResponse
 //@ ensures[C14] first_status_wins: (old(w.headerWritten) ==> w.statusCode == old(w.statusCode) && w.bypass == old(w.bypass) && none(SendResponse)) && (!old(w.headerWritten) && !old(isEventStream(w)) ==> w.statusCode == statusCode && w.headerWritten && w.bypass == old(w.bypass) && none(SendResponse))
-//@ ensures[C14] only_event_streams_bypass: !old(w.headerWritten) && old(isEventStream(w)) ==> count(SendResponse(_)) == 1
+//@ ensures[C14,C13] only_event_streams_bypass: !old(w.headerWritten) && old(isEventStream(w)) ==> count(SendResponse(_, _, _)) == 1 && emitted(SendResponse(_, true, statusCode))
 
 //@ func (*server.bufferedResponseWriter).Write
 //@ requires !isnil(w.ResponseWriter) && w.buffer != nil && bufInv(w.buffer) && w.buffer.memBytesWritten + w.buffer.diskBytesWritten + len(data) <= 4611686018427387904
@@ -818,8 +823,8 @@ package server
 //@ may_emit *
 //@ ensures[C14] buffer_closed_on_every_path: count(CloseBuffer(_)) == 1
 //@ on_panic ensures[C14] buffer_closed_when_the_target_aborts: count(CloseBuffer(_)) == 1
-//@ ensures[C14] forwards_once_then_sends: count(Forward(_, _, _)) == 1 && count(SendResponse(_)) == 1 && first(Forward(_, _, _), SendResponse(_)) && first(SendResponse(_), CloseBuffer(_))
-//@ ensures[C14] overflow_is_500: count(HttpError(_, _)) <= 1 && all(HttpError, $1 == 500) && first(SendResponse(_), HttpError(_, _))
+//@ ensures[C14] forwards_once_then_sends: count(Forward(_, _, _)) == 1 && count(SendResponse(_, _, _)) == 1 && first(Forward(_, _, _), SendResponse(_, _, _)) && first(SendResponse(_, _, _), CloseBuffer(_))
+//@ ensures[C14] overflow_is_500: count(HttpError(_, _)) <= 1 && all(HttpError, $1 == 500) && first(SendResponse(_, _, _), HttpError(_, _))
 
 //@ func server.newLoggerResponseWriter
 //@ assigns nothing
@@ -829,7 +834,7 @@ package server
 //@ requires !isnil(r.ResponseWriter)
 //@ assigns r.statusCode, @writerFrame
 //@ may_emit WriteHeader
-//@ ensures[C19] records_and_forwards: r.statusCode == statusCode && emitted(WriteHeader(r.ResponseWriter, statusCode)) && count(WriteHeader(_, _)) == 1
+//@ ensures[C19,C13] records_and_forwards: r.statusCode == statusCode && emitted(WriteHeader(r.ResponseWriter, statusCode)) && count(WriteHeader(_, _)) == 1
 
 //@ func (*server.loggerResponseWriter).Write
 //@ requires !isnil(r.ResponseWriter) && 0 <= r.bytesWritten && r.bytesWritten <= 4611686018427387904
@@ -1014,7 +1019,7 @@ package server
 //@ assigns nothing
 //@ may_emit LoadCert, ParseTemplates
 //@ ensures[C06] validation_failures_create_nothing: err != nil ==> none(NewLB) && none(NewHealthCheck)
-//@ ensures[C06,C07,C08] works_on_a_copy: err == nil ==> result0 != nil && fresh(result0) && result0.name == name && result0.pauseController != nil && !isnil(result0.middleware)
+//@ ensures[C06,C07,C08,C05] works_on_a_copy: err == nil ==> result0 != nil && fresh(result0) && result0.name == name && result0.pauseController != nil && !isnil(result0.middleware)
 
 //@ func (*server.Router).DeployService
 //@ emits CmdDeploy(r, name, deployTimeout, drainTimeout, isnil(result))
@@ -1126,7 +1131,7 @@ package server
 //@ attr blocks
 //@ assigns *
 //@ may_emit *
-//@ emits ServiceServe(s, w, r)
+//@ emits ServiceServe(s, w, r, old(r.URL.Path), old(r.Host))
 
 //@ func (*server.Router).serviceForRequest
 //@ requires req != nil && req.URL != nil && r.services != nil
@@ -1142,9 +1147,10 @@ package server
 //@ attr blocks
 //@ assigns *
 //@ may_emit *
-//@ ensures[C04] one_outcome_service_or_404: count(ServiceServe(_, _, _)) + count(ErrResp(_, _, _)) == 1 && all(ErrResp, $1 == 404) && count(Routed(_, _, _, _)) == 1
+//@ ensures[C04] one_outcome_service_or_404: count(ServiceServe(_, _, _, _, _)) + count(ErrResp(_, _, _)) == 1 && all(ErrResp, $1 == 404) && count(Routed(_, _, _, _)) == 1
 //@ ensures[C04] no_service_is_404: emitted(Routed(_, _, nil, _)) <==> emitted(ErrResp(w, 404, _))
-//@ ensures[C04] served_by_the_service_the_table_chose: all(ServiceServe, emitted(Routed(_, req, $0, _))) && (emitted(ServiceServe(_, _, _)) ==> emitted(ServiceServe(_, w, _)))
+//@ ensures[C04] served_by_the_service_the_table_chose: all(ServiceServe, emitted(Routed(_, req, $0, _))) && (emitted(ServiceServe(_, _, _, _, _)) ==> emitted(ServiceServe(_, w, _, _, _)))
+//@ ensures[C13,C16,C19] request_line_reaches_the_service_untouched: all(ServiceServe, $3 == old(req.URL.Path) && $4 == old(req.Host))
 //@ ensures[C13] same_request_unless_stripping: all(ServiceServe, forall p string :: emitted(Routed(_, _, _, p)) && !(old(as($0, `*Service`).options.StripPrefix) && p != "/") ==> $2 == ref(req))
 //@ ensures[C13] matched_prefix_travels_with_the_request_when_stripping: all(ServiceServe, forall p string :: emitted(Routed(_, _, _, p)) && old(as($0, `*Service`).options.StripPrefix) && p != "/" ==> ctxtyp(as($2, `*net/http.Request`), ROUTEKEY) == typeid(*routingContext) && as(ctxval(as($2, `*net/http.Request`), ROUTEKEY), `*routingContext`).MatchedPrefix == p && as($2, `*net/http.Request`).URL == req.URL && as($2, `*net/http.Request`).Method == req.Method)
 
